@@ -25,6 +25,8 @@ ASSUMPTIONS = [
     'P-HIST: each operation is proved from an arbitrary state satisfying the cash-account invariant, so the refinement holds after '
     'every history; a rejected submission ends the sequence (its post-state is not constrained)',
     'legal histories: an executed or cancelled resting sell was submitted before (its per-kind sum entry exists)',
+    'A-16 peewee hands the same default object to every record (JSONField(default={}) is one dict shared by all orders): modelled, so '
+    'state kept in such a field is shared between the orders of a history (cancel-after-other.*)',
 ]
 TRUSTED = ['decimal.Decimal (A-2)', 'dict.get', 'abs', 'min']
 EXPLANATION = 'submit/cancel/execute x buy/sell x MARKET/LIMIT/STOP from an arbitrary well-formed state against the cash-account model'
